@@ -18,7 +18,9 @@ RULE = ("per data type: every value of the 8/16-bit types, every v = +-2^k + d (
         "0..9 over the per-byte alphabet {00,01,7F,80,FF} (+ all 1- and 2-byte patterns) (right length: decode == "
         "little-endian value and re-encode == pattern; wrong length: must raise), REAL32/64 grid incl. subnormals, "
         "infinities, -0.0, NaN by bit pattern and out-of-range magnitudes, all 128 ASCII code points and every BMP "
-        "code point (one string per 256-block). non-trivial = distinct (type, value-or-pattern) pairs that are not the "
+        "code point (one string per 256-block); plus, for every ordered pair of numeric types, every sequence of <=3 "
+        "operations (len / encode in-range, at the ends, out of range / decode right, short, long, empty) on ONE variable "
+        "object whose data_type is re-assigned in between, each step judged against the stateless reference. non-trivial = distinct (type, value-or-pattern) pairs that are not the "
         "plain in-range mid value, i.e. boundary, out-of-range, wrong-length or non-finite inputs")
 ASSUMPTIONS = [
     "BOOLEAN is checked on {False, True, 0, 1} only (struct '?' truthiness of other ints is not ruled on by the statement)",
@@ -41,6 +43,12 @@ def cases(tier, seed):
         for L in range(0, 10):
             out.append({"part": "int-bytes", "type": name, "L": L, "full": tier == "thorough" or L <= 6})
     out.append({"part": "bool"})
+    # operation sequences on ONE variable object (and on the module-level codec objects behind it): every
+    # (first type, second type) pair, every sequence of <=2 earlier operations before each judged operation
+    hist_types = list(codec.INT_TYPES) + ["BOOLEAN", "REAL32", "REAL64"]
+    for t1 in hist_types:
+        for t2 in hist_types:
+            out.append({"part": "history", "t1": t1, "t2": t2})
     for name in ("REAL32", "REAL64"):
         out.append({"part": "real", "type": name})
     out.append({"part": "visible"})
@@ -50,6 +58,11 @@ def cases(tier, seed):
         k = seed % len(out)
         out = out[k:] + out[:k]
     return out
+
+
+def _expired():
+    from mc import simenv
+    return simenv.expired()
 
 
 def _var(name):
@@ -73,8 +86,102 @@ def _dec(v, b):
         return None, type(e).__name__
 
 
+def _ops(name):
+    """Small operation alphabet of one type: (kind, argument) with the stateless reference answer."""
+    ops = [("len", None)]
+    if name == "BOOLEAN":
+        ops += [("enc", True), ("enc", False), ("dec", "01"), ("dec", "00"), ("dec", ""), ("dec", "0100")]
+    elif name.startswith("REAL"):
+        size = 4 if name == "REAL32" else 8
+        ops += [("enc", -0.0), ("enc", 1.5), ("dec", (b"\x00" * (size - 2) + b"\xc0\xbf").hex()),
+                ("dec", "3f" * (size - 1)), ("dec", "3f" * (size + 1))]
+    else:
+        w, signed = codec.int_info(name)
+        lo, hi = codec.int_range(name)
+        n = w // 8
+        ops += [("enc", lo), ("enc", hi), ("enc", hi + 1), ("enc", lo - 1),
+                ("dec", (b"\x01" + b"\x00" * (n - 1)).hex()), ("dec", (b"\xfe" + b"\xff" * (n - 1)).hex()),
+                ("dec", "80" * (n - 1)), ("dec", "7f" * (n + 1)), ("dec", "")]
+    return ops
+
+
+def _ref(name, op):
+    """('ok', value) / ('raise',) per the stateless reference."""
+    kind, arg = op
+    if kind == "len":
+        return ("ok", 8 if name == "BOOLEAN" else 32 if name == "REAL32" else 64 if name == "REAL64"
+                else codec.int_info(name)[0])
+    if name == "BOOLEAN":
+        if kind == "enc":
+            return ("ok", bytes([1 if arg else 0]).hex())
+        return ("ok", arg == "01") if len(arg) == 2 else ("raise",)
+    if name.startswith("REAL"):
+        fmt, size = ("<f", 4) if name == "REAL32" else ("<d", 8)
+        if kind == "enc":
+            return ("ok", struct.pack(fmt, arg).hex())
+        b = bytes.fromhex(arg)
+        return ("ok", struct.pack(fmt, struct.unpack(fmt, b)[0]).hex()) if len(b) == size else ("raise",)
+    w, signed = codec.int_info(name)
+    lo, hi = codec.int_range(name)
+    if kind == "enc":
+        return ("ok", codec.encode_int(name, arg).hex()) if lo <= arg <= hi else ("raise",)
+    b = bytes.fromhex(arg)
+    return ("ok", int.from_bytes(b, "little", signed=signed)) if len(b) == w // 8 else ("raise",)
+
+
+def _do(v, name, op):
+    kind, arg = op
+    try:
+        if kind == "len":
+            return ("ok", len(v))
+        if kind == "enc":
+            return ("ok", v.encode_raw(arg).hex())
+        r = v.decode_raw(bytes.fromhex(arg))
+        if name.startswith("REAL"):
+            r = struct.pack("<f" if name == "REAL32" else "<d", r).hex()
+        return ("ok", r)
+    except Exception as e:  # noqa: BLE001
+        return ("raise", type(e).__name__)
+
+
+def _history(case, st):
+    from canopen.objectdictionary import ODVariable, datatypes as dt
+    t1, t2 = case["t1"], case["t2"]
+    if case.get("seq") is not None:
+        seqs = [[(t, (k, a)) for t, (k, a) in case["seq"]]]
+    else:
+        o1, o2 = _ops(t1), _ops(t2)
+        seqs = [[(t2, b)] for b in o2] if t1 == t2 else []
+        seqs += [[(t1, a), (t2, b)] for a in o1 for b in o2]
+        seqs += [[(t1, a), (t1, a2), (t2, b)] for a in o1 for a2 in o1 for b in o2]
+        if t1 != t2:
+            seqs += [[(t1, a), (t2, b), (t1, a2)] for a in o1[:4] for b in o2[:4] for a2 in o1]
+    for seq in seqs:
+        st.evaluations += 1
+        st.traces += 1
+        v = ODVariable("x", 0x2000)
+        for n, (t, op) in enumerate(seq):
+            op = (op[0], op[1])
+            v.data_type = getattr(dt, t)
+            got, want = _do(v, t, op), _ref(t, op)
+            st.transitions += 1
+            if got[0] != want[0] or (want[0] == "ok" and got[1] != want[1]):
+                what = "rejected" if got[0] == "raise" else "accepted" if want[0] == "raise" else "wrong-result"
+                st.violation(f"C04:history:{t}:{op[0]}:{what}:after-{'same' if n and seq[n - 1][0] == t else 'other' if n else 'no'}-type-use",
+                             {"part": "history", "t1": t1, "t2": t2, "seq": [[t_, list(o_)] for t_, o_ in seq[:n + 1]]},
+                             list(want), list(got))
+                break
+        else:
+            st.outcome("sequence exact")
+        if len(seq) > 1:
+            st.nontrivial_n += 1
+    st.sample({"history": [t1, t2], "sequences": len(seqs)})
+
+
 def run_case(case, st):
     part = case["part"]
+    if part == "history":
+        return _history(case, st)
     if part == "int-values":
         name = case["type"]
         only = case.get("only")
@@ -130,7 +237,10 @@ def run_case(case, st):
             head = [bytes(p) for p in itertools.product(ALPHA, repeat=4)]
             tails = [bytes(p) for p in itertools.product((0x00, 0x80, 0xFF), repeat=L - 4)]
             pats = [h + t for h in head for t in tails]
-        for data in pats:
+        for i, data in enumerate(pats):
+            if i % 512 == 0 and i and _expired():
+                st.caps.append("deadline reached inside a byte-pattern case")
+                break
             st.evaluations += 1
             r, err = _dec(v, data)
             if L == w // 8:
@@ -254,5 +364,7 @@ def finish(st, tier):
     from mc.simenv import HarnessError
     if st.outcomes.get("in-range exact", 0) < 2 * 65536:
         raise HarnessError("8/16-bit types not exhaustively covered")
+    if st.outcomes.get("sequence exact", 0) < 19 * 19 * 50:
+        raise HarnessError("operation-sequence part not covered")
     if not any(k.startswith("wrong-length rejected") for k in st.outcomes):
         raise HarnessError("no wrong-length decode exercised")
